@@ -3,6 +3,7 @@ import PdfModel.Lemmas.Sequence
 import PdfModel.Lemmas.Render
 import PdfModel.Lemmas.ParserCursor
 import PdfModel.Lemmas.RenderTail
+import PdfModel.Lemmas.ParserFlags
 import PdfModel.Generated.Lexical
 
 /-!
@@ -255,6 +256,37 @@ theorem parse_render_sequence_partial (env : Env R) (hd : env.decrypt = none) (f
   have := parse_sequence_partial env hd items hsz [] rest pre.length fuel hok Gap.nil hs (by simpa using hah) hfuel
   rw [hl]; simpa using this
 
+/-- **`ParseFlags`: the exact acceptance condition.**  For every conformant spelling of `v` (same hypotheses as
+    `parse_spelling_partial`) and *every* flag set: `parse_with_lexer_ctx` returns the value iff the set contains the bit of
+    `v`'s kind (`flagOf`: NULL, INTEGER, NUMBER, BOOL, STRING, NAME, ARRAY, DICT, REF), and otherwise returns `Err`
+    (`PrimitiveNotAllowed`).  The look-ahead cases are included: an integer is accepted under INTEGER (alone or with REF)
+    and rejected under REF alone — after the look-ahead has run and been rolled back —, `n g R` is accepted under REF and
+    rejected under INTEGER alone. -/
+theorem parse_flags_exact (env : Env R) (hd : env.decrypt = none) (v : Prim R) (txt : List UInt8)
+    (hsp : Spells env.parseReal v txt) (hk : KeysDistinct v) (hu : namesUtf8 v = true) (hdepth : vdepth v ≤ maxDepth)
+    {buf : Buf} (hsz : buf.size ≤ 2147483647) (g rest : List UInt8) (pos fuel : Nat) (ctx : Option (Nat × Nat))
+    (hg : Gap g) (hs : Suffix buf pos (g ++ txt ++ rest)) (hb : needsBnd v = true → Bnd rest)
+    (hah : Ahead buf (pos + g.length + txt.length)) (hfuel : need v ≤ fuel) (hf2 : 2 ≤ fuel) (flags : Nat) :
+    parseCtx env buf fuel pos ctx flags maxDepth =
+      if flags &&& flagOf v = 0 then .err else .ok (v, pos + g.length + txt.length) := by
+  by_cases hfl : flags &&& flagOf v = 0
+  · rw [if_pos hfl]
+    exact parseCtx_reject env v txt hsp g rest pos fuel ctx flags maxDepth hg hfl hs hb hah hf2
+  · rw [if_neg hfl]
+    exact parse_spelling_partial env hd v txt hsp hk hu hdepth hsz g rest pos fuel ctx hg hs hb hah hfuel flags hfl
+
+/-- **… and a rejected parse restores the cursor**: under a flag set that does not admit the value the lexer ends where
+    it started (`parse_err_restores_pos` applied to the rejection). -/
+theorem parse_flags_reject (env : Env R) (v : Prim R) (txt : List UInt8) (hsp : Spells env.parseReal v txt)
+    {buf : Buf} (g rest : List UInt8) (pos fuel : Nat) (ctx : Option (Nat × Nat)) (flags depth : Nat) (hg : Gap g)
+    (hfl : flags &&& flagOf v = 0) (hs : Suffix buf pos (g ++ txt ++ rest)) (hb : needsBnd v = true → Bnd rest)
+    (hah : Ahead buf (pos + g.length + txt.length)) (hfuel : 2 ≤ fuel) :
+    parseCtx env buf fuel pos ctx flags depth = .err ∧ parseCtxC env buf fuel pos ctx flags depth = (.err, pos) := by
+  have h1 := parseCtx_reject env v txt hsp g rest pos fuel ctx flags depth hg hfl hs hb hah hfuel
+  have h2 : (parseCtxC env buf fuel pos ctx flags depth).1 = .err := by
+    rw [parseCtxC_fst env buf fuel pos ctx flags depth hs.le]; exact h1
+  exact ⟨h1, Prod.ext h2 (parseCtxC_err env buf fuel pos ctx flags depth hs.le h2)⟩
+
 /-- **What may follow an object**: the decidable criterion `safeTail` (`Spec/Tail`: after white-space and comments
     the tail is empty, or starts a lexeme that is not `R` / `stream` and, if it is an integer, is not followed by `R`)
     guarantees the side condition `Ahead` of the theorems above, whatever gap precedes the tail; and every tail the
@@ -426,6 +458,33 @@ example :
     (match parse unitEnv sampleText.toArray Flags.any with
      | .ok (.arr [.int 1, .name [65, 32, 66], .str [97, 41, 43, 98], .str [65], .real ()], 34) => true
      | _ => false) = true := by decide +kernel
+
+/-! ### the look-ahead cases of `parse_flags_exact`, evaluated (flags: INTEGER = 1, REF = 512) -/
+
+def outcome {α : Type} : Out (Prim α × Nat) → Nat
+  | .ok (.int _, p) => 100 + p
+  | .ok (.ref _ _, p) => 200 + p
+  | .ok _ => 300
+  | .err => 0
+  | _ => 999
+
+/-- `12` (end of buffer: the member of an object stream, the D42-style restricted request for an indirect `/Length`
+    asks with INTEGER only): accepted under INTEGER and INTEGER|REF, rejected under REF alone and under NAME -/
+example : (outcome (parseWithLexer unitEnv #[49, 50] 20 0 1), outcome (parseWithLexer unitEnv #[49, 50] 20 0 513),
+    outcome (parseWithLexer unitEnv #[49, 50] 20 0 512), outcome (parseWithLexer unitEnv #[49, 50] 20 0 16)) = (102, 102, 0, 0) := by
+  decide +kernel
+
+/-- `12 0 R`: a reference under REF and INTEGER|REF; under INTEGER alone it is rejected (not read as the integer 12) -/
+example : (outcome (parseWithLexer unitEnv #[49, 50, 32, 48, 32, 82] 20 0 512),
+    outcome (parseWithLexer unitEnv #[49, 50, 32, 48, 32, 82] 20 0 513),
+    outcome (parseWithLexer unitEnv #[49, 50, 32, 48, 32, 82] 20 0 1)) = (206, 206, 0) := by
+  decide +kernel
+
+/-- `12 0 obj`: the look-ahead reads `0` and `obj`, rolls back: the integer 12 under INTEGER; rejected under REF alone with
+    the cursor back at the start -/
+example : outcome (parseWithLexer unitEnv #[49, 50, 32, 48, 32, 111, 98, 106] 20 0 1) = 102 ∧
+    (match parseWithLexerC unitEnv #[49, 50, 32, 48, 32, 111, 98, 106] 20 0 512 with | (.err, 0) => true | _ => false) = true := by
+  decide +kernel
 
 end C03
 
